@@ -164,6 +164,67 @@ def _rename(gj, prefix, id_off, blk_off):
     return g
 
 
+_CMP = {"==": lambda a, b: a == b, "!=": lambda a, b: a != b, "<": lambda a, b: a < b, ">": lambda a, b: a > b,
+        "<=": lambda a, b: a <= b, ">=": lambda a, b: a >= b}
+
+
+def _ceval(n, env, retvar=None, c=None):
+    """constant value of a pure expression over the result variable (None: not a constant / not pure)"""
+    if not isinstance(n, dict):
+        return None
+    k = n.get("k")
+    if k == "ref":
+        return env.get(n.get("id"))
+    if k == "int":
+        return n.get("v")
+    if k == "var":
+        return c if retvar is not None and n.get("n") == retvar else None
+    if k in ("cast", "paren") and len(n.get("a") or []) == 1:
+        return _ceval(n["a"][0], env, retvar, c)
+    if k == "un" and n.get("op") == "!":
+        v = _ceval(n["a"][0], env, retvar, c)
+        return None if v is None else int(not v)
+    if k == "un" and n.get("op") == "-":
+        v = _ceval(n["a"][0], env, retvar, c)
+        return None if v is None else -v
+    if k == "bin" and n.get("op") in _CMP:
+        a, b = _ceval(n["a"][0], env, retvar, c), _ceval(n["a"][1], env, retvar, c)
+        return None if a is None or b is None else int(_CMP[n["op"]](a, b))
+    if k == "call" and n.get("callee") == "aws_raise_error":
+        return -1  # aws_raise_error() returns AWS_OP_ERR, always (error.inl)
+    return None
+
+
+def _returned_const(gb, x):
+    """the constant a `return e` statement of block gb hands back, if it is one"""
+    env = {}
+    for y in gb["elems"]:
+        if y is x:
+            break
+        v = _ceval(y, env)
+        if v is not None and isinstance(y.get("id"), int):
+            env[y["id"]] = v
+    return _ceval(x["a"][0], env) if x.get("a") else None
+
+
+def _threaded_target(cont, retvar, c):
+    """jump threading: when the call's value is used only to decide the branch that ends its block (`if (helper(..))`,
+    `if (!helper(..))`, `if (helper(..) != AWS_OP_SUCCESS)`) and the helper returns the constant c here, the successor
+    that branch takes - the in-place code never had a path from the failing return into the success arm."""
+    if cont.get("term") not in ("if", "&&", "||", "?:") or cont.get("cond") is None or len(cont.get("succ") or []) != 2:
+        return None
+    env = {}
+    for x in cont["elems"]:
+        v = _ceval(x, env, retvar, c)
+        if v is None or not isinstance(x.get("id"), int):
+            return None
+        env[x["id"]] = v
+    v = _ceval(cont["cond"], env, retvar, c)
+    if v is None:
+        return None
+    return cont["succ"][0 if v else 1]
+
+
 def flatten_function(fj, by_name, helpers, types, depth=0, counter=None):
     """fj with every call of a transparent helper expanded (returns fj itself when there is nothing to do)"""
     if depth >= MAX_DEPTH or not fj.get("blocks"):
@@ -225,11 +286,18 @@ def flatten_function(fj, by_name, helpers, types, depth=0, counter=None):
             b["elems"] = head_elems
             b["succ"] = [g["entry"]]
             # the callee's returns
+            still_to_cont = False
             for gb in g["blocks"]:
                 new_elems = []
+                target = cont["id"]
                 for x in gb["elems"]:
                     if x.get("k") == "ret":
                         if has_val and x.get("a"):
+                            cv = _returned_const(gb, x)
+                            if cv is not None:
+                                t = _threaded_target(cont, retvar, cv)
+                                if t is not None:
+                                    target = t
                             new_elems.append({"k": "bin", "id": x["id"], "t": gj0["ret"], "loc": x.get("loc", loc), "op": "=",
                                               "a": [{"k": "var", "id": fresh(), "t": gj0["ret"], "loc": x.get("loc", loc), "n": retvar, "sc": "local"}, x["a"][0]]})
                         elif x.get("a"):
@@ -237,8 +305,10 @@ def flatten_function(fj, by_name, helpers, types, depth=0, counter=None):
                     else:
                         new_elems.append(x)
                 gb["elems"] = new_elems
-                gb["succ"] = [(cur["exit"] if gb.get("noreturn") else cont["id"]) if s == g["exit"] else s for s in gb["succ"]]
-            cur["blocks"] = [x for x in cur["blocks"]] + [gb for gb in g["blocks"] if gb["id"] != g["exit"]] + [cont]
+                if any(s == g["exit"] for s in gb["succ"]) and not gb.get("noreturn") and target == cont["id"]:
+                    still_to_cont = True
+                gb["succ"] = [(cur["exit"] if gb.get("noreturn") else target) if s == g["exit"] else s for s in gb["succ"]]
+            cur["blocks"] = [x for x in cur["blocks"]] + [gb for gb in g["blocks"] if gb["id"] != g["exit"]] + ([cont] if still_to_cont or not has_val else [])
             changed = True
             break
     return out or fj
